@@ -17,11 +17,15 @@ import time
 
 VERIF = os.path.abspath(os.path.join(os.path.dirname(os.path.abspath(__file__)), ".."))
 REPO = os.environ.get("VERIF_REPO", "/repo")
-COQ = os.path.join(VERIF, "coq")
+# A tree other than /repo (mutation trials: VERIF_REPO=<scratch worktree>) gets a PRIVATE work root (its own copy of
+# coq/ and ocaml/, its own evidence/ and replays/), prepared by ./check, so that its regenerated Gen/*.v, its
+# rebuilt .vo files and its evidence never mix with those of /repo or of another scratch tree checked concurrently.
+WORK = os.environ.get("VERIF_WORK") or VERIF
+COQ = os.path.join(WORK, "coq")
 THEORIES = os.path.join(COQ, "theories")
-OCAML = os.path.join(VERIF, "ocaml")
-EVIDENCE = os.path.join(VERIF, "evidence")
-REPLAYS = os.path.join(VERIF, "replays")
+OCAML = os.path.join(WORK, "ocaml")
+EVIDENCE = os.path.join(WORK, "evidence")
+REPLAYS = os.path.join(WORK, "replays")
 CORPUS = os.path.join(VERIF, "corpus")
 PY = "/venv/bin/python"
 
